@@ -816,7 +816,9 @@ EntryOrder == Dfs(<<1>>, <<>>)
 StarCycEntered ==
   LET cyc == {i \in DOMAIN EntryOrder : StarCyc(EntryOrder[i])} IN
   IF cyc = {} THEN 0 ELSE EntryOrder[CHOOSE i \in cyc : \A j \in cyc : i <= j]
-\* how a module outside the cycle looks at a member of it
+\* how a module outside the cycle looks at the member through which the cycle
+\* is entered: that member re-exports a CommonJS/JSON leaf itself
+\* ("leafhere"), only another member does ("leafelsewhere"), nobody does
 StarCycFeatures ==
   LET e == StarCycEntered IN
   IF e = 0 THEN {}
@@ -824,7 +826,7 @@ StarCycFeatures ==
                   ELSE IF DynFallback(e) THEN "leafelsewhere" ELSE "static"
            cls == IF StarCjs(e) # {} THEN "cjs" ELSE "esm" IN
        UNION {{"starcyc:" \o Body(m)[i].op \o ">" \o how \o ":" \o cls :
-                 i \in {j \in Idx(m) : Body(m)[j].t # 0 /\ StarCyc(Body(m)[j].t) /\ Body(m)[j].op \in {"rns", "rd", "star", "starns", "rex", "dyn"}}} :
+                 i \in {j \in Idx(m) : Body(m)[j].t = e /\ Body(m)[j].op \in {"rns", "rd", "star", "starns", "rex", "dyn"}}} :
               m \in {q \in 1..NM : Kind(q) = "esm" /\ ~StarCyc(q)}}
 \* importers of one CommonJS module in both interop modes: which of the two
 \* bodies runs first (the requested one before the requesting one, otherwise
